@@ -197,3 +197,18 @@ Theorem C16_docstring_literals_sound : forall f e, In (f, e) gen_docstring_liter
   (f = s2l "templates/helpers.jinja" /\ e = s2l "content") \/ f = s2l "templates/client.py.jinja".
 Proof. exact docstring_literals_sound. Qed.
 Print Assumptions C16_docstring_literals_sound.
+
+(* metadata templates (every flavour) read only the derived names / version: the version only through package_version *)
+Theorem C16_metadata_reads_documented : metadata_reads_ok = true.
+Proof. exact metadata_reads_documented. Qed.
+Print Assumptions C16_metadata_reads_documented.
+Theorem C16_metadata_reads_sound : forall f e, In (f, e) gen_metadata_reads -> In e documented_metadata_vars.
+Proof. exact metadata_reads_sound. Qed.
+Print Assumptions C16_metadata_reads_sound.
+Theorem C16_metadata_version_only_through_package_version : forall f e, In (f, e) gen_metadata_reads ->
+  e <> s2l "openapi.version" /\ e <> s2l "openapi" /\ e <> s2l "config.package_version_override" /\ e <> s2l "config".
+Proof. exact metadata_version_only_through_package_version. Qed.
+Print Assumptions C16_metadata_version_only_through_package_version.
+Theorem C16_version_declared : version_declared_ok = true.
+Proof. exact version_declared. Qed.
+Print Assumptions C16_version_declared.
